@@ -351,6 +351,9 @@ class dictable(Dict):
         
     _dict = Dict
 
+    def _new(self, items):
+        return type(self)(items) ## not **items: columns called 'data' or 'columns' are columns, not the parameters of __init__
+
     def __len__(self):
         return lens(*self.values())
     
